@@ -175,7 +175,7 @@ def one(ctx, i):
 
 def run(ctx):
     import check
-    n = 240 if ctx.quick else 1200
+    n = 240 if ctx.quick else 800
     check.pmap(ctx, 'props.c11', 'one', list(range(n)), case_timeout=200 if ctx.quick else 900)
 
 
